@@ -228,7 +228,8 @@ def value_level(run, tier, nprng, walk, torch_too=False, prop="C02"):
             if len(outs) < 2:
                 continue
             exp = outs[0][1]  # C14's own observable: torch against compute_full
-            borderline = borderline | V.near_floor(exp)
+            # (no blanket excuse for values at the floor: a coefficient numpy floors must be floored by torch as well;
+            # `borderline` already marks the cells whose pre-log value is within round-off of the floor)
             outs = [("torch_vs_numpy", outs[1][1])]
         for name, got in outs:
             run.evaluations += 1
